@@ -63,7 +63,7 @@ func genVP9FrameLike(t *core.Tape, mtu int, base *vp9Frame) vp9Frame {
 		}
 		return drawn
 	}
-	w.put(2, 2)             // frame_marker
+	w.put(2, 2) // frame_marker
 	w.put(uint64(f.profile&1), 1)
 	w.put(uint64(f.profile>>1), 1)
 	if f.profile == 3 {
